@@ -68,6 +68,36 @@ def rt_requests(msgs):
     return ["trxd.%s.rt %d %s" % (k, l, m.line()) for k, m, l in msgs]
 
 
+def in_quantifier(kind, m):
+    """C01's quantifier: a message inside the protocol ranges whose hard bits are 0/1 (Tx) resp. whose soft bits are -127..127 (Rx)"""
+    try:
+        if kind == "tx":
+            return T.in_range_tx(m) and set(bytes(m.burst)) <= {0, 1}
+        return T.in_range_rx(m) and not (m.burst is not None and 0x80 in bytes(m.burst))
+    except (TypeError, ValueError, KeyError):
+        return False
+
+
+def request_in_domain(req, model_answer):
+    """a request of the correspondence is inside the property's domain iff it encodes / round-trips a message of the quantifier,
+    or parses octets that ARE such a message (per the model); how anything else is treated (other octet values in a burst,
+    garbage octets, which exception) is compared and recorded, but is not what C01 speaks about"""
+    t = req.split()
+    kind = "tx" if ".tx." in t[0] else "rx"
+    try:
+        if t[0].endswith(".rt") or t[0].endswith(".gen"):
+            m = (T.parse_tx_answer if kind == "tx" else T.parse_rx_answer)("ok " + " ".join(t[2:]))
+            return m is not None and in_quantifier(kind, m)
+        if t[0].endswith(".rt2"):
+            return True
+        if not model_answer.startswith("ok"):
+            return False
+        m = (T.parse_tx_answer if kind == "tx" else T.parse_rx_answer)(model_answer)
+        return m is not None and in_quantifier(kind, m)
+    except (IndexError, ValueError, KeyError, TypeError):
+        return False
+
+
 def impl_rt(run, deep=False):
     key = "c01_impl_%s" % deep
     if getattr(run, key, None) is None:
@@ -113,7 +143,8 @@ def correspond(run, corr):
     pimpl = vf.run_lines(T.HARNESS, preqs)
     allreq = reqs + greqs + preqs
     model = vf.run_driver(allreq)
-    corr.compare(allreq, impl + gimpl + pimpl, model)
+    mans = dict(zip(allreq, model))
+    corr.compare(allreq, impl + gimpl + pimpl, model, in_domain=lambda r: request_in_domain(r, mans.get(r, "")))
     for (k, m, l), a in zip(msgs, impl):
         if k == "tx":
             b = "tx v%d len%d legacy%d" % (m.ver, len(m.burst), l)
@@ -202,6 +233,8 @@ def search(run, corr, deep):
     for dp in ([False, True] if deep else [False]):
         msgs, reqs, impl = impl_rt(run, dp)
         for (k, m, l), a in zip(msgs, impl):
+            if not in_quantifier(k, m):
+                continue
             why = judge(k, m, l, a)
             if why:
                 fails.append((k, m, l, a, why))
@@ -210,7 +243,8 @@ def search(run, corr, deep):
         # (values the protocol excludes included) and judge whatever the real validate()/gen_msg() lets through
         extra = [("tx", m, l) for m in T.tx_lattice() for l in (0, 1)] + \
                 [("rx", m, l) for m in T.rx_lattice(run.rng, pairs=run.scale(200, 2000)) for l in (0, 1)]
-        extra = [(k, m, l) for (k, m, l) in extra if not (k == "rx" and m.burst is not None and 0x80 in bytes(m.burst))]
+        extra = [(k, m, l) for (k, m, l) in extra if not (k == "rx" and m.burst is not None and 0x80 in bytes(m.burst))
+                 and not (k == "tx" and m.burst is not None and not set(bytes(m.burst)) <= {0, 1})]
         ea = vf.run_lines(T.HARNESS, ["trxd.%s.rt %d %s" % (k, l, m.line()) for k, m, l in extra])
         nacc = 0
         # a round trip that did not come back: refused by the real encoder (not a message the toolkit accepts), or accepted
@@ -230,7 +264,7 @@ def search(run, corr, deep):
                 fails.append((k, m, l, a, why + " (message accepted by the real validate())"))
         corr.distribution["oracle: boundary-lattice messages accepted by the real validate() and judged" + (" (deep)" if dp else "")] = nacc
         # legacy: v0 decodes the same with and without padding
-        v0 = [(k, m) for k, m, l in msgs if m.ver == 0][: run.scale(3000, 60000)]
+        v0 = [(k, m) for k, m, l in msgs if m.ver == 0 and in_quantifier(k, m)][: run.scale(3000, 60000)]
         lreq = []
         for k, m in v0:
             lreq += ["trxd.%s.rt 0 %s" % (k, m.line()), "trxd.%s.rt 1 %s" % (k, m.line())]
@@ -241,7 +275,8 @@ def search(run, corr, deep):
         corr.distribution["oracle: legacy pairs judged" + (" (deep)" if dp else "")] = len(v0)
         # decoder re-use: a decoder object that decoded another message before still yields the encoded message
         # (every field the version transports)
-        pool = {"tx": [(m, l) for k, m, l in msgs if k == "tx"], "rx": [(m, l) for k, m, l in msgs if k == "rx"]}
+        pool = {"tx": [(m, l) for k, m, l in msgs if k == "tx" and in_quantifier(k, m)],
+                "rx": [(m, l) for k, m, l in msgs if k == "rx" and in_quantifier(k, m)]}
         rreq, rmeta = [], []
         for k in ("tx", "rx"):
             if len(pool[k]) < 2:
